@@ -269,8 +269,9 @@ Section CopyProofs.
   Variables tn tn' : str -> str.
   Variables acc acc' : str -> str -> Prop.
   Variables rh rh' wh wh' : fhandle -> str -> nat -> Prop.
-  Hypothesis HLa : api_laws a V V' tn acc rh wh.
-  Hypothesis HLa' : api_laws a' V' V tn' acc' rh' wh'.
+  Variables hid hid' anc anc' : str -> Prop.
+  Hypothesis HLa : api_laws a V V' tn acc rh wh hid anc.
+  Hypothesis HLa' : api_laws a' V' V tn' acc' rh' wh' hid' anc'.
 
   (** the world is quiet, the view well formed, and it has node [n] at [p] *)
   Definition at_node (w : world) (p : str) (n : node) : Prop :=
@@ -351,7 +352,7 @@ Section CopyProofs.
   Proof.
     intros Hat. pose proof (at_node_nolinkpar w p n Hat) as Hnl.
     destruct Hat as (Hq & Hwf & Hp).
-    destruct (law_lstat_some _ _ _ _ _ _ _ HLa w p n Hq Hwf Hnl Hp)
+    destruct (law_lstat_some _ _ _ _ _ _ _ _ _ HLa w p n Hq Hwf Hnl Hp)
       as (fi & (w' & Hrun & HV & Hsr) & Him & Hmt & _).
     exists fi, w'.
     split; [exact Hrun | split; [exact Hsr | split; [exact HV | split; [exact Him | exact Hmt]]]].
@@ -375,7 +376,7 @@ Section CopyProofs.
         unfold with_meta, set_perm. rewrite land4095_idem. rewrite <- E.
         destruct n as [m | m c | m t]; destruct m; reflexivity. }
       rewrite Hsame. apply upd_res_refl. exact Hp.
-    - destruct (law_chmod _ _ _ _ _ _ _ HLa w p (mode12 info) n Hq Hwf Hnlp Hp Hnl)
+    - destruct (law_chmod _ _ _ _ _ _ _ _ _ HLa w p (mode12 info) n Hq Hwf Hnlp Hp Hnl)
         as (w' & Hrun & HV & Hsr).
       exists w'. split; [exact Hrun |]. split; [exact Hsr | exact HV].
   Qed.
@@ -397,7 +398,7 @@ Section CopyProofs.
         unfold with_meta, set_mt. rewrite <- E.
         destruct n as [m | m c | m t]; destruct m; reflexivity. }
       rewrite Hsame. apply upd_res_refl. exact Hp.
-    - destruct (law_chtimes _ _ _ _ _ _ _ HLa w p (fi_mt info) n Hq Hwf Hnlp Hp Hnl)
+    - destruct (law_chtimes _ _ _ _ _ _ _ _ _ HLa w p (fi_mt info) n Hq Hwf Hnlp Hp Hnl)
         as (w' & Hrun & HV & Hsr).
       exists w'. split; [exact (ignore_permission_ok _ w w' tt Hrun) |].
       split; [exact Hsr | exact HV].
@@ -420,7 +421,7 @@ Section CopyProofs.
     destruct Him as (_ & _ & Huid & Hgid & _).
     destruct (negb (Z.eqb (fi_uid old) (fi_uid info)) || negb (Z.eqb (fi_gid old) (fi_gid info)))
       eqn:E.
-    - destruct (law_chown _ _ _ _ _ _ _ HLa w1 p (fi_uid info) (fi_gid info) n Hq1 Hwf1 Hnlp1 Hp1 Hnl)
+    - destruct (law_chown _ _ _ _ _ _ _ _ _ HLa w1 p (fi_uid info) (fi_gid info) n Hq1 Hwf1 Hnlp1 Hp1 Hnl)
         as (w2 & Hrun2 & HV2 & Hsr2).
       exists w2, (chown_node n (fi_uid info) (fi_gid info)). split; [| split; [| split]].
       + apply (ignore_permission_ok _ w w2 tt). unfold chown_to.
@@ -461,26 +462,26 @@ Section CopyProofs.
 
   (** MkdirAll on a missing or existing directory whose ancestors are directories *)
   Lemma mkdirall_step (w : world) (p : str) (perm : N) :
-    quiet w -> swf (V w) -> sdirect (V w) p -> (V w !! p = None \/ sdir (V w) p) ->
+    quiet w -> swf (V w) -> sdirect (V w) p -> (V w !! p = None \/ sdir (V w) p) -> ~ hid p ->
     exists w1 m1, a_mkdirall a p perm w = (MOk tt, w1) /\ step_post V V' w w1 [p] /\
                   V w1 !! p = Some (Dir m1).
   Proof.
-    intros Hq Hwf Hdir [Hnone | [m Hm]].
-    - destruct (law_mkdirall_new _ _ _ _ _ _ _ HLa w p perm Hq Hwf Hdir Hnone)
+    intros Hq Hwf Hdir [Hnone | [m Hm]] Hnh.
+    - destruct (law_mkdirall_new _ _ _ _ _ _ _ _ _ HLa w p perm Hq Hwf Hdir Hnone Hnh)
         as (m' & s' & (w1 & Hrun & HV & Hsr) & Hp' & Heqv & Hwf').
       subst s'. exists w1, m'. split; [exact Hrun |]. split; [| exact Hp'].
       split; [exact Hsr | split; [exact Hwf' | exact Heqv]].
-    - destruct (law_mkdirall_dir _ _ _ _ _ _ _ HLa w p perm m Hq Hwf Hdir Hm)
+    - destruct (law_mkdirall_dir _ _ _ _ _ _ _ _ _ HLa w p perm m Hq Hwf Hdir Hm)
         as (w1 & Hrun & HV & Hsr).
       exists w1, m. split; [exact Hrun |]. unfold step_post. rewrite HV. split; [| exact Hm].
       split; [exact Hsr | split; [exact Hwf | apply store_eqv_except_refl]].
   Qed.
 
-  Lemma copy_dir_spec_sec : copy_dir_stmt a V V' tn acc rh wh.
+  Lemma copy_dir_spec_sec : copy_dir_stmt a V V' tn acc rh wh hid anc.
   Proof.
-    intros _ w p fi Hq Hwf Hdir Hne Hk Hu Hg Hcase.
+    intros _ w p fi Hq Hwf Hdir Hne Hk Hu Hg Hcase Hnh.
     (* MkdirAll *)
-    destruct (mkdirall_step w p (perm9 fi) Hq Hwf Hdir Hcase) as (w1 & m1 & Hrun1 & Hpost1 & Hp1).
+    destruct (mkdirall_step w p (perm9 fi) Hq Hwf Hdir Hcase Hnh) as (w1 & m1 & Hrun1 & Hpost1 & Hp1).
     assert (Hat1 : at_node w1 p (Dir m1)).
     { destruct Hpost1 as (Hsr1 & Hwf1 & _). split; [| split]; [| exact Hwf1 | exact Hp1].
       eapply quiet_same_rest; eassumption. }
@@ -547,7 +548,7 @@ Section CopyProofs.
       intros w dst src p ps pos m ms c Hq Hp Hpos Hwh Hrh Hps Hf1 Hf2.
     - lia.
     - simpl io_copy.
-      pose proof (law_hread _ _ _ _ _ _ _ HLa' w src ps pos ms c Hq Hrh Hps) as Hread.
+      pose proof (law_hread _ _ _ _ _ _ _ _ _ HLa' w src ps pos ms c Hq Hrh Hps) as Hread.
       destruct (skipn pos c) as [|x rest] eqn:Hskip.
       + destruct Hread as (h' & w1 & Hrun & HV'1 & Hsr1).
         destruct (same_rest_swap V V' w w1 HV'1 Hsr1) as [HV1 Hsr1'].
@@ -564,7 +565,7 @@ Section CopyProofs.
         pose proof (quiet_same_rest V' w w1 Hq Hsr1') as Hq1.
         assert (Hp1 : V w1 !! p = Some (File m (firstn pos c))) by (rewrite HV1; exact Hp).
         assert (Hlen : length (firstn pos c) = pos) by (apply firstn_length_le; exact Hpos).
-        destruct (law_hwrite _ _ _ _ _ _ _ HLa w1 dst p pos m (firstn pos c) data Hq1 Hwh Hp1 Hlen)
+        destruct (law_hwrite _ _ _ _ _ _ _ _ _ HLa w1 dst p pos m (firstn pos c) data Hq1 Hwh Hp1 Hlen)
           as (h2 & t' & (w2 & Hrun2 & HV2 & Hsr2) & Hwh2).
         pose proof (quiet_same_rest V' w1 w2 Hq1 Hsr2) as Hq2.
         assert (Hdlen : length data = Nat.min chunk_size (length c - pos)).
@@ -596,16 +597,16 @@ Section CopyProofs.
   (** create or truncate for writing *)
   Lemma openfile_step (w : world) (p : str) (perm : N) :
     quiet w -> swf (V w) -> sdirect (V w) p ->
-    (V w !! p = None \/ exists m0 c0, V w !! p = Some (File m0 c0)) ->
+    (V w !! p = None \/ exists m0 c0, V w !! p = Some (File m0 c0)) -> ~ hid p ->
     exists h w1 m1, a_openfile a p 578 perm w = (MOk h, w1) /\ wh h p 0 /\
                     step_post V V' w w1 [p] /\ V w1 !! p = Some (File m1 []).
   Proof.
-    intros Hq Hwf Hdir [Hnone | (m0 & c0 & Hm)].
-    - destruct (law_openfile_new _ _ _ _ _ _ _ HLa w p perm Hq Hwf Hdir Hnone)
+    intros Hq Hwf Hdir [Hnone | (m0 & c0 & Hm)] Hnh.
+    - destruct (law_openfile_new _ _ _ _ _ _ _ _ _ HLa w p perm Hq Hwf Hdir Hnone Hnh)
         as (h & m' & s' & (w1 & Hrun & HV & Hsr) & Hwh & Hp' & Heqv & Hwf').
       subst s'. exists h, w1, m'. split; [exact Hrun | split; [exact Hwh | split; [| exact Hp']]].
       split; [exact Hsr | split; [exact Hwf' | exact Heqv]].
-    - destruct (law_openfile_trunc _ _ _ _ _ _ _ HLa w p perm m0 c0 Hq Hwf
+    - destruct (law_openfile_trunc _ _ _ _ _ _ _ _ _ HLa w p perm m0 c0 Hq Hwf
                   (sdirect_snolinkpar _ _ Hdir) Hm)
         as (h & t' & (w1 & Hrun & HV & Hsr) & Hwh).
       exists h, w1, (set_mt t' m0).
@@ -622,12 +623,12 @@ Section CopyProofs.
         (ms : meta) (c : list N) :
     quiet w -> swf (V w) -> sdirect (V w) p ->
     (V w !! p = None \/ exists m0 c0, V w !! p = Some (File m0 c0)) ->
-    rh' src ps 0 -> V' w !! ps = Some (File ms c) -> small c ->
+    rh' src ps 0 -> V' w !! ps = Some (File ms c) -> small c -> ~ hid p ->
     exists w' m', write_file a p perm src w = (MOk tt, w') /\ step_post V V' w w' [p] /\
                   at_node w' p (File m' c).
   Proof.
-    intros Hq Hwf Hdir Hcase Hrh Hps Hsmall.
-    destruct (openfile_step w p perm Hq Hwf Hdir Hcase)
+    intros Hq Hwf Hdir Hcase Hrh Hps Hsmall Hnh.
+    destruct (openfile_step w p perm Hq Hwf Hdir Hcase Hnh)
       as (file & w1 & m1 & Hrun1 & Hwh & Hpost1 & Hp1).
     assert (Hat1 : at_node w1 p (File m1 [])).
     { destruct Hpost1 as (Hsr1 & Hwf1 & _). split; [| split]; [| exact Hwf1 | exact Hp1].
@@ -648,7 +649,7 @@ Section CopyProofs.
     { pose proof (swf_lookup_perm12 _ _ _ (proj1 (proj2 Hat1)) Hp1) as H.
       unfold perm12 in H |- *. simpl in H |- *. rewrite Hperm2. exact H. }
     pose proof (upd_at_node w1 w2 p _ _ Hat1 Hupd2 eq_refl H12) as Hat2.
-    destruct (law_hclose_w _ _ _ _ _ _ _ HLa w2 file p 0%nat (proj1 Hat2) Hwh)
+    destruct (law_hclose_w _ _ _ _ _ _ _ _ _ HLa w2 file p 0%nat (proj1 Hat2) Hwh)
       as (w3 & Hrun3 & HV3 & Hsr3).
     pose proof (read_at_node w2 w3 p _ Hat2 Hsr3 HV3) as Hat3.
     exists w3, m2. split; [| split; [| exact Hat3]].
@@ -663,10 +664,10 @@ Section CopyProofs.
       apply upd_res_read; [exact (proj2 (proj2 Hat2)) | exact Hsr3 | exact HV3].
   Qed.
 
-  Lemma copy_file_spec_sec : copy_file_stmt a a' V V' tn tn' acc acc' rh rh' wh wh'.
+  Lemma copy_file_spec_sec : copy_file_stmt a a' V V' tn tn' acc acc' rh rh' wh wh' hid hid' anc anc'.
   Proof.
-    intros _ _ w p fi src ps ms c Hq Hwf Hwf' Hdir Hk Hu Hg Hcase Hrh Hps Hsmall.
-    destruct (write_file_spec w p (perm9 fi) src ps ms c Hq Hwf Hdir Hcase Hrh Hps Hsmall)
+    intros _ _ w p fi src ps ms c Hq Hwf Hwf' Hdir Hk Hu Hg Hcase Hrh Hps Hsmall Hnh.
+    destruct (write_file_spec w p (perm9 fi) src ps ms c Hq Hwf Hdir Hcase Hrh Hps Hsmall Hnh)
       as (w1 & m1 & Hrun1 & Hpost1 & Hat1).
     (* Chown *)
     destruct (chown_to_step w1 p (File m1 c) fi Hat1 (not_is_link_file _ _) Hu Hg)
@@ -717,11 +718,11 @@ Section CopyProofs.
   (* ---------------------------------------------------------------- *)
   (** * [copy_symlink] *)
 
-  Lemma copy_symlink_spec_sec : copy_symlink_stmt a a' V V' tn tn' acc acc' rh rh' wh wh'.
+  Lemma copy_symlink_spec_sec : copy_symlink_stmt a a' V V' tn tn' acc acc' rh rh' wh wh' hid hid' anc anc'.
   Proof.
-    intros _ _ w p fi ms t Hq Hwf Hwf' Hnlp' Hlink Hdir Hnone Hk Hu Hg Htne Hacc.
+    intros _ _ w p fi ms t Hq Hwf Hwf' Hnlp' Hlink Hdir Hnone Hk Hu Hg Htne Hacc Hnh.
     (* Readlink on the source *)
-    destruct (law_readlink _ _ _ _ _ _ _ HLa' w p ms t Hq Hwf' Hnlp' Hlink)
+    destruct (law_readlink _ _ _ _ _ _ _ _ _ HLa' w p ms t Hq Hwf' Hnlp' Hlink)
       as (w1 & Hrun1 & HV'1 & Hsr1).
     destruct (same_rest_swap V V' w w1 HV'1 Hsr1) as [HV1 Hsr1'].
     pose proof (quiet_same_rest V' w w1 Hq Hsr1') as Hq1.
@@ -729,13 +730,13 @@ Section CopyProofs.
     assert (Hwf1 : swf (V w1)) by (rewrite HV1; exact Hwf).
     assert (Hdir1 : sdirect (V w1) p) by (rewrite HV1; exact Hdir).
     assert (Hnone1 : V w1 !! p = None) by (rewrite HV1; exact Hnone).
-    destruct (law_symlink _ _ _ _ _ _ _ HLa w1 t p Hq1 Hwf1 Hdir1 Hnone1 Htne Hacc)
+    destruct (law_symlink _ _ _ _ _ _ _ _ _ HLa w1 t p Hq1 Hwf1 Hdir1 Hnone1 Htne Hacc Hnh)
       as (m2 & s2 & (w2 & Hrun2 & HV2 & Hsr2) & Hp2 & Hperm2 & Heqv2 & Hwf2).
     subst s2.
     assert (Hat2 : at_node w2 p (Link m2 (tn t))).
     { split; [| split; [exact Hwf2 | exact Hp2]]. eapply quiet_same_rest; eassumption. }
     (* Lchown *)
-    destruct (law_lchown _ _ _ _ _ _ _ HLa w2 p (fi_uid fi) (fi_gid fi) (Link m2 (tn t))
+    destruct (law_lchown _ _ _ _ _ _ _ _ _ HLa w2 p (fi_uid fi) (fi_gid fi) (Link m2 (tn t))
                 (proj1 Hat2) Hwf2 (at_node_nolinkpar _ _ _ Hat2) Hp2)
       as (w3 & Hrun3 & HV3 & Hsr3).
     set (n3 := chown_node (Link m2 (tn t)) (fi_uid fi) (fi_gid fi)) in *.
@@ -762,15 +763,15 @@ Section CopyProofs.
   (* ---------------------------------------------------------------- *)
   (** * [lexists] *)
 
-  Lemma lexists_spec_sec : lexists_stmt a V V' tn acc rh wh.
+  Lemma lexists_spec_sec : lexists_stmt a V V' tn acc rh wh hid anc.
   Proof.
     intros _ w p Hq Hwf Hnlp. unfold lexists.
     destruct (V w !! p) as [n|] eqn:Hp.
-    - destruct (law_lstat_some _ _ _ _ _ _ _ HLa w p n Hq Hwf Hnlp Hp)
+    - destruct (law_lstat_some _ _ _ _ _ _ _ _ _ HLa w p n Hq Hwf Hnlp Hp)
         as (fi & (w' & Hrun & HV & Hsr) & _).
       exists w'. split; [| split; [exact HV | exact Hsr]].
       rewrite (bind_ok _ _ w w' (Ok fi) (try_ok _ w w' fi Hrun)). reflexivity.
-    - destruct (law_lstat_none _ _ _ _ _ _ _ HLa w p Hq Hwf Hnlp Hp)
+    - destruct (law_lstat_none _ _ _ _ _ _ _ _ _ HLa w p Hq Hwf Hnlp Hp)
         as (e & w' & Hrun & Hnf & HV & Hsr).
       exists w'. split; [| split; [exact HV | exact Hsr]].
       rewrite (bind_ok _ _ w w' (Err e) (try_err _ w w' e Hrun)).
@@ -858,7 +859,8 @@ Section RealPath.
   Variable tn : str -> str.
   Variable acc : str -> str -> Prop.
   Variables rh wh : fhandle -> str -> nat -> Prop.
-  Hypothesis HLa : api_laws a V V' tn acc rh wh.
+  Variables hid anc : str -> Prop.
+  Hypothesis HLa : api_laws a V V' tn acc rh wh hid anc.
 
   Lemma resolve_loop_spec (n : str) : forall (l : list str) (w : world),
     l <> [] -> last l [] = n ->
@@ -873,7 +875,7 @@ Section RealPath.
     - cbn [resolve_loop].
       pose proof (Hnlp q (in_eq q rest)) as Hnlpq.
       destruct (V w !! q) as [nd|] eqn:Hsq.
-      + destruct (law_lstat_some _ _ _ _ _ _ _ HLa w q nd Hq Hwf Hnlpq Hsq)
+      + destruct (law_lstat_some _ _ _ _ _ _ _ _ _ HLa w q nd Hq Hwf Hnlpq Hsq)
           as (fi & (w1 & Hrun1 & HV1 & Hsr1) & (Hkind & _) & _).
         rewrite (bind_ok _ _ w w1 (Ok fi) (try_ok _ w w1 fi Hrun1)).
         pose proof (quiet_same_rest V' w w1 Hq Hsr1) as Hq1.
@@ -885,7 +887,7 @@ Section RealPath.
           -- assert (Hwf1 : swf (V w1)) by (rewrite HV1; exact Hwf).
              assert (Hnlp1 : snolinkpar (V w1) n) by (rewrite HV1; exact Hnlpq).
              assert (Hs1 : V w1 !! n = Some (Link m t)) by (rewrite HV1; exact Hsq).
-             destruct (law_readlink _ _ _ _ _ _ _ HLa w1 n m t Hq1 Hwf1 Hnlp1 Hs1)
+             destruct (law_readlink _ _ _ _ _ _ _ _ _ HLa w1 n m t Hq1 Hwf1 Hnlp1 Hs1)
                as (w2 & Hrun2 & HV2 & Hsr2).
              rewrite (bind_ok _ _ w1 w2 t Hrun2).
              exists w2, (Some fi). split; [reflexivity | split].
@@ -907,14 +909,14 @@ Section RealPath.
              ++ destruct (fi_kind fi); [exact Hrun2 | exact Hrun2 | contradiction Hk; reflexivity].
              ++ rewrite HV2. exact HV1.
              ++ eapply same_rest_trans; eassumption.
-      + destruct (law_lstat_none _ _ _ _ _ _ _ HLa w q Hq Hwf Hnlpq Hsq)
+      + destruct (law_lstat_none _ _ _ _ _ _ _ _ _ HLa w q Hq Hwf Hnlpq Hsq)
           as (e & w1 & Hrun1 & Hnf & HV1 & Hsr1).
         rewrite (bind_ok _ _ w w1 (Err e) (try_err _ w w1 e Hrun1)).
         unfold not_found in Hnf. rewrite Hnf.
         exists w1, None. split; [reflexivity | split; [exact HV1 | exact Hsr1]].
   Qed.
 
-  Lemma real_path_resolved_spec_sec : real_path_resolved_stmt a V V' tn acc rh wh.
+  Lemma real_path_resolved_spec_sec : real_path_resolved_stmt a V V' tn acc rh wh hid anc.
   Proof.
     unfold real_path_resolved_stmt. cbv zeta. intros _ w n Hq Hwf Hnlp.
     pose proof Hnlp as [[Hc Habs] Hf].
@@ -949,33 +951,33 @@ Proof.
   unfold is_dir_info. destruct (fi_kind fi); [contradiction Hk; reflexivity | reflexivity | reflexivity].
 Qed.
 
-Lemma copy_dir_spec : forall a V V' tn acc rh wh, copy_dir_stmt a V V' tn acc rh wh.
+Lemma copy_dir_spec : forall a V V' tn acc rh wh hid anc, copy_dir_stmt a V V' tn acc rh wh hid anc.
 Proof.
-  intros a V V' tn acc rh wh HLa. exact (copy_dir_spec_sec a V V' tn acc rh wh HLa HLa).
+  intros a V V' tn acc rh wh hid anc HLa. exact (copy_dir_spec_sec a V V' tn acc rh wh hid anc HLa HLa).
 Qed.
 
-Lemma copy_file_spec : forall a a' V V' tn tn' acc acc' rh rh' wh wh',
-  copy_file_stmt a a' V V' tn tn' acc acc' rh rh' wh wh'.
+Lemma copy_file_spec : forall a a' V V' tn tn' acc acc' rh rh' wh wh' hid hid' anc anc',
+  copy_file_stmt a a' V V' tn tn' acc acc' rh rh' wh wh' hid hid' anc anc'.
 Proof.
-  intros a a' V V' tn tn' acc acc' rh rh' wh wh' HLa HLa'.
-  exact (copy_file_spec_sec a a' V V' tn tn' acc acc' rh rh' wh wh' HLa HLa' HLa HLa').
+  intros a a' V V' tn tn' acc acc' rh rh' wh wh' hid hid' anc anc' HLa HLa'.
+  exact (copy_file_spec_sec a a' V V' tn tn' acc acc' rh rh' wh wh' hid hid' anc anc' HLa HLa' HLa HLa').
 Qed.
 
-Lemma copy_symlink_spec : forall a a' V V' tn tn' acc acc' rh rh' wh wh',
-  copy_symlink_stmt a a' V V' tn tn' acc acc' rh rh' wh wh'.
+Lemma copy_symlink_spec : forall a a' V V' tn tn' acc acc' rh rh' wh wh' hid hid' anc anc',
+  copy_symlink_stmt a a' V V' tn tn' acc acc' rh rh' wh wh' hid hid' anc anc'.
 Proof.
-  intros a a' V V' tn tn' acc acc' rh rh' wh wh' HLa HLa'.
-  exact (copy_symlink_spec_sec a a' V V' tn tn' acc acc' rh rh' wh wh' HLa HLa' HLa HLa').
+  intros a a' V V' tn tn' acc acc' rh rh' wh wh' hid hid' anc anc' HLa HLa'.
+  exact (copy_symlink_spec_sec a a' V V' tn tn' acc acc' rh rh' wh wh' hid hid' anc anc' HLa HLa' HLa HLa').
 Qed.
 
-Lemma lexists_spec : forall a V V' tn acc rh wh, lexists_stmt a V V' tn acc rh wh.
+Lemma lexists_spec : forall a V V' tn acc rh wh hid anc, lexists_stmt a V V' tn acc rh wh hid anc.
 Proof.
-  intros a V V' tn acc rh wh HLa. exact (lexists_spec_sec a V V' tn acc rh wh HLa HLa).
+  intros a V V' tn acc rh wh hid anc HLa. exact (lexists_spec_sec a V V' tn acc rh wh hid anc HLa HLa).
 Qed.
 
-Lemma real_path_resolved_spec : forall base Vb Vk tnb accb rhb whb,
-  real_path_resolved_stmt base Vb Vk tnb accb rhb whb.
+Lemma real_path_resolved_spec : forall base Vb Vk tnb accb rhb whb hid anc,
+  real_path_resolved_stmt base Vb Vk tnb accb rhb whb hid anc.
 Proof.
-  intros base Vb Vk tnb accb rhb whb HLb.
-  exact (real_path_resolved_spec_sec base Vb Vk tnb accb rhb whb HLb HLb).
+  intros base Vb Vk tnb accb rhb whb hid anc HLb.
+  exact (real_path_resolved_spec_sec base Vb Vk tnb accb rhb whb hid anc HLb HLb).
 Qed.
